@@ -22,3 +22,4 @@ pub use crate::endpoint::verif_misc as misc;
 pub mod recv;
 pub mod common;
 pub use crate::space::verif_session as session;
+pub use crate::space::verif_crypto_stream as crypto_stream;
